@@ -273,6 +273,15 @@ def integration_obligations(tier):
     for ob in profiles.p_resource_rules(thorough, timeout=900 if thorough else 150):
         ob = dict(ob, harness="sim_rules", engine="zsym")
         obs.append(ob)
+    # a facility task that ranks above a plain task: the only worker can operate only some of its workplace's facilities
+    for rule in ((0, 4) if not thorough else range(9)):
+        for frule in (-1, 0):
+            tasks = [{"w": "$w0", "nf": True, "comp": 0, "frule": frule}, {"w": "$w1"}]
+            wps = [{"targets": [0], "cap": 1, "facs": [{"skills": {"0": "$f0"}}, {"skills": {"0": "$f1"}}]}]
+            ws = [{"skills": {"0": 1, "1": 1}, "fskills": {"0": "$q0", "1": "$q1"}}]
+            spec = {"tasks": tasks, "edges": [], "teams": [{"targets": [0, 1], "workers": ws}], "wps": wps, "comps": [{"size": 1}], "run": {"max_time": 10, "rule": rule}}
+            obs.append({"name": "alloc-operate/rule=%d/frule=%d" % (rule, frule), "harness": "sim", "cube": {"spec": spec},
+                        "params": [["w0", 1, 3], ["w1", 1, 3], ["f0", 0, 2], ["f1", 0, 2], ["q0", 0, 1], ["q1", 0, 1]], "timeout": 900 if thorough else 150, "engine": "zsym"})
     # the resource rules read the current skills: the run follows a complete run of the same objects with other skill maps
     ed = [dict(ob, engine="zsym") for ob in profiles.p_resource_rules(thorough, timeout=900 if thorough else 150)
           if "wprule=0" in ob["name"] and ("wrule=0/frule=0" in ob["name"] or "wrule=2/frule=2" in ob["name"] or thorough)]
